@@ -1640,3 +1640,10 @@ Proof.
     by (rewrite Hz; apply slice_sel_reverse).
   rewrite Hs in Hi. exact Hi.
 Qed.
+
+(* Open finding range-int64-overflow: outside the box |.| < 2^62 the int64 arithmetic of Range wraps; the
+   forward walk of range(0, INT64_MAX, 2^62) never reaches Terminal (so [in_box] cannot simply be dropped) *)
+Lemma range_overflow_refuted :
+  snd (walk R 5 Fwd 40 (IRange (mkRng 0 9223372036854775807 4611686018427387904))) = WRunaway /\
+  range_len R (mkRng (-9223372036854775808) 9223372036854775807 4611686018427387904) = 1.
+Proof. vm_compute. auto. Qed.
